@@ -23,3 +23,17 @@ macro_rules! vharness_realkey {
 		fn $name() $body
 	};
 }
+
+/// like `vharness!`, plus `HashSet::{with_capacity, insert}` under their assumed contract
+macro_rules! vharness_hashset {
+	($(#[$m:meta])* fn $name:ident() $body:block) => {
+		#[kani::proof]
+		#[kani::stub(crate::handle_unwind::handle_unwind, crate::verif::stubs::handle_unwind_nopanic)]
+		#[kani::stub(crate::key::ThreadKey::get, crate::key::verif_peek::get_model)]
+		#[kani::stub(<crate::key::ThreadKey as core::ops::Drop>::drop, crate::key::verif_peek::drop_model)]
+		#[kani::stub(std::collections::HashSet::with_capacity, crate::verif::stubs::hs_with_capacity)]
+		#[kani::stub(std::collections::HashSet::insert, crate::verif::stubs::hs_insert)]
+		$(#[$m])*
+		fn $name() $body
+	};
+}
